@@ -27,6 +27,15 @@ Definition is_standalone (a : api) : bool :=
 
 Definition snaps_ext : bytes := B ".snap".
 
+(* '%' -> "%%": the standalone path is a fmt format for the ordinal, every other '%' must stay literal
+   (snapshot.go: escapePercent; fix F8) *)
+Definition pct : N := 37%N.
+Fixpoint esc_pct (s : bytes) : bytes :=
+  match s with
+  | [] => []
+  | c :: r => if N.eqb c pct then pct :: pct :: esc_pct r else c :: esc_pct r
+  end.
+
 Definition construct_filename (c : config) (caller test : bytes) (standalone : bool) : bytes :=
   let filename :=
     match c_filename c with
@@ -34,18 +43,40 @@ Definition construct_filename (c : config) (caller test : bytes) (standalone : b
             else let base := basename caller in trim_suffix (ext base) base
     | f => f
     end in
-  (if standalone then filename ++ B "_%d" else filename) ++ snaps_ext ++ c_ext c.
+  if standalone then esc_pct filename ++ B "_%d" ++ snaps_ext ++ esc_pct (c_ext c)
+  else filename ++ snaps_ext ++ c_ext c.
 
 Definition snapshot_path (c : config) (caller test : bytes) (standalone : bool) : bytes :=
-  let dir := if is_abs (c_dir c) then c_dir c else join2 (dirname caller) (c_dir c) in
-  join2 dir (construct_filename c caller test standalone).
+  let caller' := if standalone then esc_pct caller else caller in
+  let d := if standalone then esc_pct (c_dir c) else c_dir c in
+  let dir := if is_abs d then d else join2 (dirname caller') d in
+  join2 dir (construct_filename c caller' test standalone).
 
-(* fmt.Sprintf(path, k) restricted to paths whose only verb is the "_%d" put there by
-   constructFilename: substitute the first "%d" *)
+(* fmt.Sprintf(path, k) on the formats snapshotPath builds: "%%" prints '%', the first "%d" prints the ordinal
+   (after it only "%%" is interpreted; any other verb is copied - none can occur in a path built by snapshot_path) *)
+Fixpoint unesc_pct (s : bytes) : bytes :=
+  match s with
+  | c :: r =>
+      if N.eqb c pct then
+        match r with
+        | c2 :: r2 => if N.eqb c2 pct then pct :: unesc_pct r2 else c :: c2 :: unesc_pct r2
+        | [] => [c]
+        end
+      else c :: unesc_pct r
+  | [] => []
+  end.
 Fixpoint subst_d (p : bytes) (k : bytes) : bytes :=
   match p with
-  | 37%N :: 100%N :: r => k ++ r
-  | c :: r => c :: subst_d r k
+  | c :: r =>
+      if N.eqb c pct then
+        match r with
+        | c2 :: r2 =>
+            if N.eqb c2 pct then pct :: subst_d r2 k
+            else if N.eqb c2 100%N then k ++ unesc_pct r2
+            else c :: c2 :: subst_d r2 k
+        | [] => [c]
+        end
+      else c :: subst_d r k
   | [] => []
   end.
 
